@@ -25,12 +25,46 @@ class Ctx:
         return r
 
     def paths(self, body, **kw):
-        key = (body.path, tuple(sorted(kw.items())))
+        inl = kw.pop("inline", False)
+        key = (body.path, inl, tuple(sorted(kw.items())))
         r = self._pe.get(key)
         if r is None:
+            if inl:
+                kw["inline"] = self.default_inline(body)
             r = PathEnum(self.prog, body, **kw)
             self._pe[key] = r
         return r
+
+    def default_inline(self, root):
+        """inline crate-local helpers into a path enumeration, except the channel wrappers, the
+        channel constructor and metrics (they stay leaf events)"""
+        A = self.A
+        leaf = {b.path for b in A.send_wrappers} | {b.path for b in A.recv_wrappers} | set(A.chan_ctor_family)
+        leaf.discard(root.path)
+
+        def pred(site, callee):
+            if callee.path in leaf:
+                return False
+            if A.metric_call(site):
+                return False
+            if (callee.j.get("impl_adt") or "").endswith("CountMetrics"):
+                return False
+            return True
+
+        return pred
+
+    def held_for_event(self, ev):
+        """(may, must) locks held when a path event executes, including the locks held at the
+        call sites of the frames it was inlined through"""
+        body = ev.body if ev.body is not None else (ev.site.body if ev.site is not None else None)
+        may, must = self.lr(body).held_at(ev.bb, ev.idx)
+        may = set(may)
+        must = set(must)
+        for cb, cbb in ev.chain:
+            m1, m2 = self.lr(cb).held_at(cbb)
+            may |= m1
+            must |= m2
+        return may, must
 
     def where(self, body, bb=None, idx="term"):
         if bb is None:
